@@ -98,6 +98,42 @@ func runC31(r *lib.Run) {
 					}
 				}
 			}
+			// the existing tree may share one Go pointer between several leaves (v := ygot.String("x")
+			// assigned to many entries): unmarshalling one of them must not write through the pointer
+			if i%3 == 1 {
+				arng := rand.New(rand.NewSource(r.Seed*61 + int64(i)))
+				byType := map[reflect.Type][]reflect.Value{}
+				for _, nd := range cfg.Nodes(E) {
+					keyIdx := map[int]bool{}
+					if nd.IsEntry {
+						for _, kf := range nd.Info.KeyFields() {
+							if kf != nil {
+								keyIdx[kf.Idx] = true
+							}
+						}
+					}
+					for _, f := range nd.Info.Fields {
+						fv := nd.V.Elem().Field(f.Idx)
+						if f.Kind == lib.KLeaf && fv.Kind() == reflect.Ptr && !fv.IsNil() && !keyIdx[f.Idx] && f.LeafrefPath == "" {
+							byType[fv.Type()] = append(byType[fv.Type()], fv)
+						}
+					}
+				}
+				var types []reflect.Type
+				for t := range byType {
+					types = append(types, t)
+				}
+				sort.Slice(types, func(a, b int) bool { return types[a].String() < types[b].String() })
+				for _, t := range types {
+					vs := byType[t]
+					for k := 0; k+1 < len(vs) && k < 6; k += 2 {
+						if arng.Intn(2) == 0 {
+							vs[k+1].Set(vs[k]) // both leaves now share one pointer (and value)
+							r.Hit("existing:aliased-leaf-pointers")
+						}
+					}
+				}
+			}
 			oe, ot := cfg.Observe(E), cfg.Observe(T)
 			both := false
 			for lp := range ot.Order {
